@@ -428,6 +428,7 @@ static void build_profile(void) {
         add_op(O_FREENULL, 0, 0, 0, "free(NULL)");
         add_op(O_ENABLE, 0, 0, 0, "enable_features(0)"); add_op(O_ENABLE, 1, 0, 0, "enable_features(1)"); add_op(O_ENABLE, 7, 0, 0, "enable_features(7)");
         add_op(O_INJECT, 0, 0, 0, "inject(A)"); add_op(O_INJECT, 1, 7, 0, "inject(B:time,alloc,free=NULL)");
+        add_op(O_INJECT, 1, 2, 0, "inject(B:alloc=NULL)"); add_op(O_INJECT, 0, 4, 0, "inject(A:free=NULL)");      /* each optional entry is optional on its own */
         add_op(O_ARM, 0, 0, 0, "arm-allocation-fault");
         add_op(O_BADCALL, 0, 0, 0, "load(bad-checksum)"); add_op(O_BADCALL, 1, 0, 0, "load(bad-header)"); add_op(O_BADCALL, 2, 0, 0, "decode(two-words)");
         add_op(O_BADCALL, 3, 0, 0, "decode_explicit(unknown-words)"); add_op(O_BADCALL, 4, 0, 0, "decode(wrong-coin)");
